@@ -35,7 +35,7 @@ class SpliceItem(ObjectWithFields):
     @classmethod
     def parse(cls, bit_reader):
         kwargs = {}
-        spr = bit_reader.duplicate(kwargs)
+        spr = bit_reader.duplicate(cls.__name__, kwargs)
         spr.read(32, 'event_id')
         spr.read(1, 'event_cancel_indicator')
         spr.get(7, 'reserved')
@@ -107,6 +107,7 @@ class SpliceSchedule(ObjectWithFields):
         for idx in range(splice_count):
             splice = SpliceItem.parse(r)
             kwargs['splices'].append(splice)
+        return kwargs
 
     def encode(self, dest):
         w = BitsFieldWriter(self, dest)
